@@ -145,9 +145,9 @@ func runC24(c *an.Ctx) {
 		fn := a.Fn
 		ok := an.FuncName(fn) == "(*AgentIPC).handleHandshake" &&
 			an.GuardedBy(fn, a.Instr, an.Cmp{L: "$1.version", Op: "==", R: "c:0"}) &&
-			an.GuardedBy(fn, a.Instr, an.Cmp{L: "local:req.Version", Op: ">=", R: cv(c, agent, "MinIPCVersion")}) &&
-			an.GuardedBy(fn, a.Instr, an.Cmp{L: "local:req.Version", Op: "<=", R: cv(c, agent, "MaxIPCVersion")}) &&
-			an.Path(a.Val) == "local:req.Version"
+			an.GuardedBy(fn, a.Instr, an.Cmp{L: "local:handshakeRequest.Version", Op: ">=", R: cv(c, agent, "MinIPCVersion")}) &&
+			an.GuardedBy(fn, a.Instr, an.Cmp{L: "local:handshakeRequest.Version", Op: "<=", R: cv(c, agent, "MaxIPCVersion")}) &&
+			an.Path(a.Val) == "local:handshakeRequest.Version"
 		c.Add(ok, "R3", "version-writer:"+an.FuncName(fn), a.Instr, "the connection's version is set only by the handshake handler, once, to a supported version", "who-may-write + edge dominance")
 	}
 	nA := 0
@@ -158,7 +158,7 @@ func runC24(c *an.Ctx) {
 		nA++
 		fn := a.Fn
 		ok := an.FuncName(fn) == "(*AgentIPC).handleAuth" && an.IsConstBool(a.Val, true) &&
-			an.GuardedBy(fn, a.Instr, an.Cmp{L: "local:req.AuthKey", Op: "==", R: "$0.authKey"})
+			an.GuardedBy(fn, a.Instr, an.Cmp{L: "local:authRequest.AuthKey", Op: "==", R: "$0.authKey"})
 		c.Add(ok, "R3", "didAuth-writer:"+an.FuncName(fn), a.Instr, "didAuth is set only by the auth handler, only when the presented key equals the configured key", "who-may-write + edge dominance")
 	}
 	c.Floor("R3", "writers of didAuth", nA, 1)
@@ -465,7 +465,7 @@ func chanSource(v ssa.Value) string {
 				continue
 			}
 			if p2, ok := e.(*ssa.Phi); ok && p2 != phi {
-				if s := chanSource(p2); s != "" && !strings.HasPrefix(s, "phi:") {
+				if s := chanSource(p2); s != "" && !strings.HasPrefix(s, "phi") {
 					return s
 				}
 				continue
